@@ -3,6 +3,7 @@ import PhyVerif.Spec.C01b
 import PhyVerif.Lemmas.C01
 import PhyVerif.Lemmas.C16
 import PhyVerif.Lemmas.C16c
+import PhyVerif.Lemmas.C16d
 /-! Proofs for the reader objects of C01 (attributes, backend-tagged `__getitem__`).
 Statements: `Props/C01.lean`. -/
 namespace PhyVerif.C01.Lemmas
@@ -32,19 +33,23 @@ theorem boundsOK_last (sizes : List Nat) (cs : Nat) (b : List Nat) (h : C16.boun
   simp only [C16.boundsOK, Bool.and_eq_true, beq_iff_eq] at h
   exact h.1.1.1.2
 
-/-- chunk bounds of a flat / array reader end at the total number of rows -/
-theorem readerChunkBounds_last (sizes : List Nat) (rate : Rat) (hne : sizes ≠ []) (hr : 1/1200 < rate) :
-    ∃ cb, C16.readerChunkBounds sizes rate = some cb ∧ cb.getLast? = some sizes.sum := by
-  have hpos : 0 < C16.chunkSize rate := (C16.Lemmas.chunkSize_pos_iff rate).2 hr
-  refine ⟨C16.getChunkBounds sizes (C16.chunkSize rate).toNat, ?_, ?_⟩
-  · unfold C16.readerChunkBounds
-    simp only []
-    rw [if_neg (by omega)]
-  · exact boundsOK_last _ _ _ (C16.Lemmas.getChunkBounds_ok sizes _ (by omega) hne)
+/-- an accepted rate makes the float-product chunk length positive (`C16.chunkSizeFl_pos_iff`) -/
+theorem chunkSizeFl_pos {rate : Rat} (hr : RateOK rate) : 0 < C16.chunkSizeFl rate :=
+  (C16.Lemmas.chunkSizeFl_pos_iff_rate rate).2 hr.1
 
-theorem rate_pos {rate : Rat} (hr : 1/1200 < rate) : 0 < rate := by grind
+/-- chunk bounds of a flat / array reader (chunk length from the float product) end at the total number of rows -/
+theorem readerChunkBoundsFl_last (sizes : List Nat) (rate : Rat) (hne : sizes ≠ []) (hr : RateOK rate) :
+    ∃ cb, C16.readerChunkBoundsFl sizes rate = some cb ∧ cb.getLast? = some sizes.sum := by
+  obtain ⟨cb, hcb, hok⟩ := C16.Lemmas.readerChunkBoundsFl_ok sizes rate hne (chunkSizeFl_pos hr)
+  exact ⟨cb, hcb, boundsOK_last _ _ _ hok⟩
 
-theorem rate_ne {rate : Rat} (hr : 1/1200 < rate) : rate ≠ 0 := by grind
+theorem rate_pos {rate : Rat} (hr : RateOK rate) : 0 < rate := by
+  have := hr.1
+  by_contra hc
+  have h0 : rate ≤ 0 := not_lt.1 hc
+  linarith
+
+theorem rate_ne {rate : Rat} (hr : RateOK rate) : rate ≠ 0 := ne_of_gt (rate_pos hr)
 
 /-- what the theorems need to know about a constructed reader -/
 structure Built {α : Type} (src : Source α) (r : Reader α) : Prop where
@@ -57,11 +62,11 @@ structure Built {α : Type} (src : Source α) (r : Reader α) : Prop where
   partBounds : r.partBounds = bounds r.store
   store : r.store.flatten = src.concat
 
-theorem buildArray_built {α : Type} (be : Backend) (a : Arr α) (rate : Rat) (hr : 1/1200 < rate) :
+theorem buildArray_built {α : Type} (be : Backend) (a : Arr α) (rate : Rat) (hr : RateOK rate) :
     ∃ r, buildArray be a rate = some r ∧ r.backend = be ∧ r.nSamples = some a.rows.length ∧
       r.nChannels = a.ncols ∧ r.dtype = a.dtype ∧ r.rate = rate ∧ r.partBounds = bounds r.store ∧
       r.store = [a.rows] := by
-  obtain ⟨cb, hcb, hlast⟩ := readerChunkBounds_last [a.rows.length] rate (by simp) hr
+  obtain ⟨cb, hcb, hlast⟩ := readerChunkBoundsFl_last [a.rows.length] rate (by simp) hr
   have hpos := rate_pos hr
   refine ⟨{ backend := be, store := [a.rows], partBounds := [0, a.rows.length], chunkBounds := cb,
             nChannels := a.ncols, dtype := a.dtype, rate := rate }, ?_, ?_⟩
@@ -82,7 +87,7 @@ theorem build_built {α : Type} (src : Source α) (h : SrcOK src) : ∃ r, build
       intro f hf
       rw [hfs f hf]
       exact memmapRows_exact off isz nch _ hisz hnch
-    obtain ⟨cb, hcb, hlast⟩ := readerChunkBounds_last ((files.map (·.rows)).map List.length) rate
+    obtain ⟨cb, hcb, hlast⟩ := readerChunkBoundsFl_last ((files.map (·.rows)).map List.length) rate
       (by simpa using hne) hr
     refine ⟨{ backend := .flat, store := files.map (·.rows),
               partBounds := C16.partBounds ((files.map (·.rows)).map List.length),
@@ -123,6 +128,41 @@ theorem build_built {α : Type} (src : Source α) (h : SrcOK src) : ∃ r, build
         · simp [Reader.nSamples, hl, Source.concat]
         · simp [bounds, boundsFrom]
         · simp [Source.concat]
+
+/-- the constructors of flat / in-memory / npy readers reject every rate at or below the lower bound of `RateOK` -/
+theorem buildArray_none {α : Type} (be : Backend) (a : Arr α) (rate : Rat)
+    (h : 600 * rate ≤ 1/2 + 1/18014398509481984) : buildArray be a rate = none := by
+  have hcs : C16.chunkSizeFl rate ≤ 0 := by
+    have := (C16.Lemmas.chunkSizeFl_pos_iff_rate rate).not.2 (not_lt.2 h)
+    omega
+  unfold buildArray
+  split
+  · rfl
+  · rw [C16.Lemmas.readerChunkBoundsFl_none _ _ hcs]
+
+theorem build_none_of_rate {α : Type} (src : Source α) (hbe : src.backend ≠ .cbin)
+    (h : 600 * src.rate ≤ 1/2 + 1/18014398509481984) : build src = none := by
+  cases src with
+  | flat files off isz nch dtype rate =>
+    have hcs : C16.chunkSizeFl rate ≤ 0 := by
+      have := (C16.Lemmas.chunkSizeFl_pos_iff_rate rate).not.2 (not_lt.2 h)
+      omega
+    unfold build
+    simp only []
+    split
+    · rfl
+    · split
+      · rfl
+      · split
+        · rfl
+        · rw [C16.Lemmas.readerChunkBoundsFl_none _ _ hcs]
+  | array a rate => exact buildArray_none .array a rate h
+  | npy paths rate =>
+    match paths with
+    | [a] => exact buildArray_none .npy a rate h
+    | [] => rfl
+    | _ :: _ :: _ => rfl
+  | cbin readers => exact absurd rfl hbe
 
 /-! ### attributes -/
 
